@@ -201,8 +201,51 @@ def special_cases(_=None):
   return len(roots), len(roots), viols, []
 
 
+def late_registration_case(_=None):
+  """A node type that is registered *after* registries have already looked it up (and treated it
+  as a leaf) is a registered node type from then on: every registry that falls back to the default
+  registry must report every path inside its values, exactly once, each path sound."""
+  viols = []
+  def bad(what):
+    viols.append(dict(kind='late', spec='late', what=what, sig='late-registration', store='', op=''))
+  Box = type('Box', (), {'__init__': lambda self, items: setattr(self, 'items', list(items)),
+                         '__getitem__': lambda self, i: self.items[i]})
+  root = {'a': Box([1, [2, 3]]), 'b': [Box([()])]}
+  fallback_regs = [daglish.NodeTraverserRegistry(use_fallback=True) for _ in range(2)]
+  def paths(reg):
+    kw = {} if reg is None else {'registry': reg}
+    return sorted(daglish.path_str(p) for _, p in daglish.iterate(root, memoized=False, **kw))
+  before = [paths(r) for r in [None] + fallback_regs[:1]]      # first registry looks Box up now
+  if any(any('.items' in p or '[0][' in p and 'Box' in p for p in b) for b in before):
+    bad('an unregistered type was traversed')
+  daglish.register_node_traverser(
+      Box, flatten_fn=lambda b: (tuple(b.items), None),
+      unflatten_fn=lambda values, _: Box(values),
+      path_elements_fn=lambda b: tuple(daglish.Index(i) for i in range(len(b.items))))
+  want = paths(None)
+  if len(want) <= len(before[0]):
+    bad('registration in the default registry had no effect on the default traversal')
+  for n_, reg in enumerate(fallback_regs):
+    got = paths(reg)
+    if got != want:
+      missing = sorted(set(want) - set(got))
+      bad(f'fallback registry #{n_} ({"looked the type up before" if n_ == 0 else "created before"} '
+          f'its registration) does not traverse values of the registered type: missing paths '
+          f'{missing[:6]}')
+    for v, p in daglish.iterate(root, memoized=False, registry=reg):
+      if daglish.follow_path(root, p) is not v and not isinstance(v, (int, tuple)):
+        bad('unsound path through a late-registered node type')
+    fn = lambda v, s: s.map_children(v) if s.is_traversable(v) else v
+    rebuilt = fn(root, daglish.MemoizedTraversal(fn, root, registry=reg).initial_state())
+    if rebuilt['a'] is root['a'] or not isinstance(rebuilt['a'], Box) or rebuilt['a'].items != [1, [2, 3]]:
+      bad(f'identity traversal through fallback registry #{n_} did not rebuild the registered node')
+  return 3, 3, viols, [dict(scenario='node type registered after a fallback registry looked it up')]
+
+
 def replay(case):
-  if case['kind'] == 'temps':
+  if case['kind'] == 'late':
+    r = late_registration_case()
+  elif case['kind'] == 'temps':
     r = temp_leaves_case()
   elif case['kind'] == 'cycle':
     r = cycle_case()
@@ -223,6 +266,7 @@ def run(tier='quick', seed=0, nproc=16):
   res.append(cycle_case())
   res.append(special_cases())
   res.append(temp_leaves_case())
+  res.append(late_registration_case())
   return common.merge(
       res, 'layerb.prop_C08',
       rule='every DAG shape <= %d nodes over Config/list/tuple/dict + pool configurations '
@@ -230,5 +274,5 @@ def run(tier='quick', seed=0, nproc=16):
            'un-memoized traversal = independently computed path multiset, each path followed with '
            '`is`; memoized traversal = every memoizable object once; get_all_paths / '
            'collect_paths_by_id = exact path sets; identity traversal preserves canonical form; '
-           'cycles raise ValueError' % n,
+           'cycles raise ValueError; a node type registered after a fallback registry looked it up' % n,
       exhaustive=True, bound=f'DAGs <= {n} nodes + pool')
